@@ -104,6 +104,16 @@ Definition as_bool (p : payload) : pyres bool := match p with PBool b => Ok b | 
 (* 4 if x == y == 8 else 1 *)
 Definition arom_or_single (x y : Z) : payload := if (x =? y) && (y =? 8) then PInt 4 else PInt 1.
 
+(* 4 if atoms_types[last_num] == atoms_types[a] == 8 else 1 *)
+Definition arom_at (s : pstate) (a : Z) : pyres payload :=
+  match type_at s (ps_last s) with
+  | Err e => Err e
+  | Ok tl => match type_at s a with
+             | Err e => Err e
+             | Ok ta => Ok (arom_or_single tl ta)
+             end
+  end.
+
 (* closing of ring closure `k` opened as (a, ob, ind): the bond value, stereo_bonds, log; or the raise *)
 Definition close_bond (strong : bool) (s : pstate) (a : Z) (ob : option token) : pyres (payload * sdict * Z * option token) :=
   let last := ps_last s in
@@ -112,17 +122,27 @@ Definition close_bond (strong : bool) (s : pstate) (a : Z) (ob : option token) :
     match ps_prev s with
     | None =>
         if obt =? 9 then match as_bool obv with
-                         | Ok v => Ok (PInt 1, sb_set (sb_set (ps_sbonds s) a last v) last a (negb v), ps_log s, None)
+                         | Ok v => match arom_at s a with
+                                   | Ok b => Ok (b, sb_set (sb_set (ps_sbonds s) a last v) last a (negb v), ps_log s, None)
+                                   | Err e => Err e end
                          | Err e => Err e end
         else if strong then ISm
         else Ok (obv, ps_sbonds s, ps_log s + 1, None)
     | Some (bt, b) =>
         if bt =? 9 then
-          match (if obt =? 9 then match as_bool obv with Ok v => Ok (sb_set (ps_sbonds s) a last v) | Err e => Err e end
-                 else if negb (py_eq obv (PInt 1)) then ISm
-                 else match as_bool b with Ok v => Ok (sb_set (ps_sbonds s) a last (negb v)) | Err e => Err e end) with
+          match as_bool b with
           | Err e => Err e
-          | Ok sb => match as_bool b with Ok v => Ok (PInt 1, sb_set sb last a v, ps_log s, None) | Err e => Err e end
+          | Ok v =>
+            let sb1 := sb_set (ps_sbonds s) last a v in                       (* stereo_bonds[last_num][a] = b *)
+            if obt =? 9 then
+              match as_bool obv with
+              | Err e => Err e
+              | Ok ov => match arom_at s a with
+                         | Ok b' => Ok (b', sb_set sb1 a last ov, ps_log s, None)
+                         | Err e => Err e end
+              end
+            else if negb (py_eq obv (PInt 1)) then ISm
+            else Ok (PInt 1, sb_set sb1 a last (negb v), ps_log s, None)
           end
         else if obt =? 9 then
           if negb (py_eq b (PInt 1)) then ISm
@@ -136,17 +156,16 @@ Definition close_bond (strong : bool) (s : pstate) (a : Z) (ob : option token) :
     match ps_prev s with
     | Some (bt, b) =>
         if bt =? 9 then match as_bool b with
-                        | Ok v => Ok (PInt 1, sb_set (sb_set (ps_sbonds s) last a v) a last (negb v), ps_log s, None)
+                        | Ok v => match arom_at s a with
+                                  | Ok b' => Ok (b', sb_set (sb_set (ps_sbonds s) last a v) a last (negb v), ps_log s, None)
+                                  | Err e => Err e end
                         | Err e => Err e end
         else if strong then ISm
         else Ok (b, ps_sbonds s, ps_log s + 1, None)
     | None =>
-        match type_at s last with
+        match arom_at s a with
+        | Ok b => Ok (b, ps_sbonds s, ps_log s, None)
         | Err e => Err e
-        | Ok tl => match type_at s a with
-                   | Err e => Err e
-                   | Ok ta => Ok (arom_or_single tl ta, ps_sbonds s, ps_log s, None)
-                   end
         end
     end
   end.
@@ -313,6 +332,9 @@ Definition show_parsed (p : parsed) : string :=
 Definition pick (alpha : list token) (idx : list nat) : list token := map (fun i => nth i alpha (0, PNone)) idx.
 Definition psweep (alpha : list token) (prefix : list nat) : list (list token) :=
   map (fun t => (pick alpha prefix ++ [t])%list) alpha.
+(* prefix over the alphabet `alpha`, last token over `last` *)
+Definition psweep2 (alpha last : list token) (prefix : list nat) : list (list token) :=
+  map (fun t => (pick alpha prefix ++ [t])%list) last.
 Definition b_parse (strong : bool) (inputs : list (list token)) := batch (fun ts => show_res show_parsed (parse ts strong)) inputs.
 Definition b_parse_str (strong : bool) (inputs : list string) :=
   batch (fun s => show_res show_parsed (match tokenize s with Ok ts => parse ts strong | Err e => Err e end)) inputs.
